@@ -240,6 +240,7 @@ func cmdCheck(args []string) int {
 			if *dump != "" {
 				os.MkdirAll(*dump, 0o755)
 				os.WriteFile(*dump+"/"+smtSym(o.Name)+".smt2", []byte(u.Ctx.query(o, true)), 0o644)
+				os.WriteFile(*dump+"/"+smtSym(o.Name)+".sliced.smt2", []byte(u.Ctx.slicedQuery(o, true)), 0o644)
 			}
 			if kf := matchKnown(known, *prop, o.Name); kf != nil {
 				knownMatched[kf.Obligation+" "+kf.What] = true
